@@ -57,11 +57,58 @@ class UnitDataEnvelope(Contract):
         return []
 
     def ensures(self, it, a, r, old):
-        return [("C20: the result is a (scale, dimension) pair or a table row",
-                 isinstance(r, tuple) and len(r) in (2, 5))]
+        from pyvc.unyt_domain import e_numval, rpow, E_ONE
+        out = [("C20: the result is a (scale, dimension) pair or a table row",
+                isinstance(r, tuple) and len(r) in (2, 5))]
+        if not (isinstance(r, tuple) and len(r) == 2):
+            return out
+        e = a.unit_expr
+        k = e_kind(e.term)
+        subs = [res for (x, res) in it.__dict__.get("unit_data_results", [])]
+        sc, dim = to_real(r[0]), r[1]
+
+        def sub_scale(i):
+            return to_real(subs[i][0])
+
+        def sub_dim(i):
+            d = subs[i][1]
+            return d if isinstance(d, SDim) else None
+
+        # C02.P2: a compound expression denotes the product of its factors' powers -- stated
+        # structurally: each branch combines what the walk returned for the sub-expressions
+        if len(subs) == 0:
+            out.append(("C02: a numeric factor is its own scale and has no dimension",
+                        z3.Implies(k == K_NUM, z3.And(z3.Or(e.term == E_ONE, sc == e_numval(e.term)),
+                                                      to_z3(_dim_is_one(dim))))))
+        elif len(subs) == 1:
+            p = e_numval(getattr(e, "_args")[1].term)
+            d0 = sub_dim(0)
+            out.append(("C02: Pow: scale == (scale of the base) ** exponent (positive base scale; the one "
+                        "negatively scaled unit, lat, is left to the bounded driver)",
+                        z3.Implies(z3.And(k == K_POW, sub_scale(0) > 0), sc == rpow(sub_scale(0), p))))
+            if d0 is not None and isinstance(dim, SDim):
+                out.append(("C02: Pow: dimension == (dimension of the base) ** exponent",
+                            z3.Implies(k == K_POW, z3.And(*[to_real(x) == to_real(y) * p
+                                                            for x, y in zip(dim.vec, d0.vec)]))))
+        elif len(subs) == 2:
+            d0, d1 = sub_dim(0), sub_dim(1)
+            out.append(("C02: Mul: scale == product of the factors' scales",
+                        z3.Implies(k == K_MUL, sc == sub_scale(0) * sub_scale(1))))
+            if d0 is not None and d1 is not None and isinstance(dim, SDim):
+                out.append(("C02: Mul: dimension == product of the factors' dimensions",
+                            z3.Implies(k == K_MUL, z3.And(*[to_real(x) == to_real(y) + to_real(z_)
+                                                            for x, y, z_ in zip(dim.vec, d0.vec, d1.vec)]))))
+        return out
 
     def canary(self, it, a, r, old):
         return z3.BoolVal(False)
+
+
+def _dim_is_one(d):
+    if isinstance(d, SDim):
+        e = d.is_one()
+        return e if not isinstance(e, bool) else z3.BoolVal(e)
+    return z3.BoolVal(False)
 
 
 class UnitNewFromString(Contract):
